@@ -36,9 +36,11 @@ class Minimiser:
         from efsim import runner
         self.tests += 1
         res = runner.run(self.prop, self.mon, ops=ops, header=header or self.header, opts=self.opts)
-        if matches(res.violation, self.expected):
-            self.last_violation = res.violation
-            return True
+        # (enumeration runs go on after a violation: the expected class may be any of the collected ones)
+        for v in (res.collected or [res.violation]):
+            if matches(v, self.expected):
+                self.last_violation = v
+                return True
         return False
 
     def out_of_time(self):
